@@ -27,7 +27,7 @@ def _serialize_test_result(test):
     
     if test.status == "skipped":
         make_xml_child(xml_test, "skipped")
-    else:
+    elif test.status == "failed":
         for step in test.get_steps():
             for log in step.get_logs():
                 if isinstance(log, Check) and log.is_successful is False:
